@@ -779,16 +779,280 @@ def pdbAtomOk (a : PdbAtom) : Bool :=
 def pdbCellOk (c : Cell6) : Bool :=
   fitsF 8 3 c.a && fitsF 9 3 c.b && fitsF 9 3 c.c && fitsF 7 2 c.al && fitsF 7 2 c.be && fitsF 7 2 c.ga
 
-/-- representable in PDB; titles of at most 60 characters (one TITLE record) in the theorem, longer
-ones are exercised by the correspondence only -/
+/-- the range of the PDB format as the writer lays it out (any one-line title) -/
 def rangePdb (d : PdbS) : Bool :=
+  lineOk d.title && (match d.cell with | none => true | some c => pdbCellOk c) &&
+  d.atoms.all pdbAtomOk && decide (d.atoms.length ≤ 9998)
+
+/-- hypothesis of the round-trip theorem: inside the range, and a title of at most 60 characters
+(one TITLE record; longer titles are wrapped over continuation records and are exercised by the
+correspondence only) -/
+def reprPdb (d : PdbS) : Bool :=
   lineOk d.title && decide (d.title.length ≤ 60) && (match d.cell with | none => true | some c => pdbCellOk c) &&
   d.atoms.all pdbAtomOk && decide (d.atoms.length ≤ 9998)
 
-def reprPdb (d : PdbS) : Bool := rangePdb d
-
 def writeTextPdb (d : PdbS) : Str := toText (writePdb d)
 def parseTextPdb (t : Str) : PRes PdbS := parsePdb (ofText t)
+
+
+/-! ## XCFG (`p_xcfg.py`, AtomEye extended CFG) -/
+
+structure XAtom where
+  el : Str
+  mass : Rat            -- `AtomicMass.get(element, 0.0)` (table lookup done by the harness)
+  xyz : V3              -- fractional coordinates
+  occ : Rat
+  u : List Rat          -- `numpy.ravel(a.U)`, nine numbers
+  v : Option V3         -- `a.v` when the atom has one
+  aux : List Rat        -- values of the stored, non-derived auxiliaries, in their order
+deriving DecidableEq
+
+structure XcfgS where
+  base : List Rat       -- `lattice.base` row-major, nine numbers
+  unitCell : Bool       -- `numpy.allclose(lattice.abcABG(), (1, 1, 1, 90, 90, 90))`
+  storedAux : List Str  -- `stru.xcfg["auxiliaries"]` (`[]` when absent)
+  atoms : List XAtom
+deriving DecidableEq
+
+def ratFloor (q : Rat) : Int := q.num / (q.den : Int)
+def ratCeil (q : Rat) : Int := -ratFloor (-q)
+
+def listMax (d : Rat) (l : List Rat) : Rat := l.foldl (fun a b => if a < b then b else a) d
+def listMin (d : Rat) (l : List Rat) : Rat := l.foldl (fun a b => if b < a then b else a) d
+def maxOf (l : List Rat) : Rat := match l with | [] => 0 | a :: as => listMax a as
+def minOf (l : List Rat) : Rat := match l with | [] => 0 | a :: as => listMin a as
+
+def coords (k : Nat) (atoms : List XAtom) : List Rat :=
+  atoms.map (fun a => match k with | 0 => a.xyz.x | 1 => a.xyz.y | _ => a.xyz.z)
+
+/-- `_is_derived_auxiliary`: names the writer derives from occupancy and displacement parameters -/
+def isDerivedAux (p : Str) : Bool :=
+  p == "occupancy".toList || p == "Uiso".toList || p == "Biso".toList ||
+  (match p with
+   | [c, a, b] => (c == 'B' || c == 'U') && (a == '1' || a == '2' || a == '3') && (b == '1' || b == '2' || b == '3')
+   | _ => false)
+
+/-- smallest natural `A` with `A² · h2 ≥ 49/4` (`ceil(3.5 / sqrt(h2))`), by search from an under-estimate -/
+def ceilRatio (h2 : Rat) : Nat :=
+  let q : Rat := (49 / 4 : Rat) / h2
+  let s := Nat.sqrt (ratFloor q).toNat
+  let rec go (fuel a : Nat) : Nat :=
+    match fuel with
+    | 0 => a
+    | fuel + 1 => if (49 / 4 : Rat) ≤ ((a * a : Nat) : Rat) * h2 then a else go fuel (a + 1)
+  go 4 s
+
+structure XLayout where
+  a : Nat               -- the length unit `p_A`
+  shift : V3            -- `p_dxyz`
+  noVel : Bool
+  aux : List Str        -- names of all auxiliaries written
+  uMode : Nat           -- 0: none, 1: Uiso, 2: U11.. (with flags below)
+  u12 : Bool
+  u13 : Bool
+  u23 : Bool
+  occ : Bool
+
+def uIsIso (u : List Rat) : Bool :=
+  match u with
+  | [a, b, c, d, e, f, g, h, i] => b == 0 && c == 0 && d == 0 && f == 0 && g == 0 && h == 0 && e == a && i == a
+  | _ => false
+
+def xcfgLayout (d : XcfgS) : XLayout :=
+  let los := [0, 1, 2].map (fun k => minOf (coords k d.atoms))
+  let his := [0, 1, 2].map (fun k => maxOf (coords k d.atoms))
+  let ranges := (his.zip los).map (fun p => p.1 - p.2)
+  let maxRange := maxOf ranges + (if d.unitCell then 2 else 0)
+  let a0 : Nat := (ratCeil (maxRange + 1 / 10000000000000)).toNat
+  let rows := [d.base.take 3, (d.base.drop 3).take 3, (d.base.drop 6).take 3]
+  let h2 := maxOf (rows.map (fun r => (r.map (fun x => x * x)).foldl (· + ·) 0))
+  let a : Nat := if h2 * ((a0 * a0 : Nat) : Rat) < 49 / 4 then ceilRatio h2 else a0
+  let aq : Rat := (a : Rat)
+  let sh := (his.zip los).map (fun p =>
+    if p.2 / aq < 0 ∨ 1 ≤ p.1 / aq ∨ (p.2 = p.1 ∧ p.2 = 0) then (1 / 2 : Rat) - (p.1 + p.2) / 2 / aq else 0)
+  let noVel := match d.atoms with | a :: _ => a.v.isNone | [] => true
+  let stored := d.storedAux.filter (fun n => !isDerivedAux n)
+  let anyOcc := d.atoms.any (fun a => a.occ != 1)
+  let allZero := d.atoms.all (fun a => a.u.all (· == 0))
+  let allIso := d.atoms.all (fun a => uIsIso a.u)
+  let u12 := d.atoms.any (fun a => a.u.getD 1 0 != 0)
+  let u13 := d.atoms.any (fun a => a.u.getD 2 0 != 0)
+  let u23 := d.atoms.any (fun a => a.u.getD 5 0 != 0)
+  let uMode := if allZero then 0 else if allIso then 1 else 2
+  let uNames : List Str :=
+    if uMode = 0 then [] else if uMode = 1 then ["Uiso".toList]
+    else ["U11".toList, "U22".toList, "U33".toList] ++ (if u12 then ["U12".toList] else []) ++
+         (if u13 then ["U13".toList] else []) ++ (if u23 then ["U23".toList] else [])
+  ⟨a, ⟨sh.getD 0 0, sh.getD 1 0, sh.getD 2 0⟩, noVel,
+   stored ++ (if anyOcc then ["occupancy".toList] else []) ++ uNames, uMode, u12, u13, u23, anyOcc⟩
+
+def g8 (x : Rat) : Str := fmtG 8 x
+
+def xcfgEntry (L : XLayout) (a : XAtom) : Str :=
+  let aq : Rat := (L.a : Rat)
+  let pos := [a.xyz.x / aq + L.shift.x, a.xyz.y / aq + L.shift.y, a.xyz.z / aq + L.shift.z]
+  let vel := if L.noVel then [] else match a.v with | some v => [v.x, v.y, v.z] | none => []
+  let us : List Rat :=
+    if L.uMode = 0 then [] else if L.uMode = 1 then [a.u.getD 0 0]
+    else [a.u.getD 0 0, a.u.getD 4 0, a.u.getD 8 0] ++ (if L.u12 then [a.u.getD 1 0] else []) ++
+         (if L.u13 then [a.u.getD 2 0] else []) ++ (if L.u23 then [a.u.getD 5 0] else [])
+  ssv ((pos ++ vel ++ a.aux ++ (if L.occ then [a.occ] else []) ++ us).map g8)
+
+def xcfgAtomLines (L : XLayout) : Option Str → List XAtom → List Str
+  | _, [] => []
+  | prev, a :: as =>
+    (if prev = some a.el then [] else [fmtF 0 4 a.mass, a.el]) ++ xcfgEntry L a :: xcfgAtomLines L (some a.el) as
+
+def nameI (i : Nat) : Str := natDigits i
+
+/-- `toLines` (defined for at least one atom; the writer refuses an empty structure) -/
+def writeXcfg (d : XcfgS) : List Str :=
+  let L := xcfgLayout d
+  ["Number of particles = ".toList ++ natDigits d.atoms.length,
+   "A = ".toList ++ g8 (L.a : Rat) ++ " Angstrom".toList] ++
+  ((List.range 9).map (fun k => "H0(".toList ++ nameI (k / 3 + 1) ++ [','] ++ nameI (k % 3 + 1) ++ ") = ".toList ++
+      g8 (d.base.getD k 0) ++ " A".toList)) ++
+  (if L.noVel then [".NO_VELOCITY.".toList] else []) ++
+  ["entry_count = ".toList ++ natDigits ((if L.noVel then 3 else 6) + L.aux.length)] ++
+  (L.aux.zipIdx.map (fun p => "auxiliary[".toList ++ natDigits p.2 ++ "] = ".toList ++ p.1 ++ " [au]".toList)) ++
+  [[]] ++ xcfgAtomLines L none d.atoms
+
+/-- what the reader reconstructs from one entry line: element, fractional position `A * pos`, and the
+named auxiliary values -/
+structure XRead where
+  el : Str
+  xyz : V3
+  v : Option V3
+  aux : List (Str × Rat)
+deriving DecidableEq
+
+structure XcfgRead where
+  natoms : Int
+  a : Rat
+  base : List Rat
+  atoms : List XRead
+deriving DecidableEq
+
+def isPrefixOf (p s : Str) : Bool := s.take p.length == p
+
+def firstTok (s : Str) : Option Str := (splitWs s).head?
+
+structure XHdr where
+  n : Option Int
+  a : Option Rat
+  h0 : List (Option Rat)      -- nine entries
+  noVel : Bool
+  entryCount : Option Int
+  aux : List (Nat × Str)
+
+/-- `^auxiliary\[(\d+)\] =` -/
+def auxMatch (line : Str) : Option (Nat × Str) :=
+  let p := "auxiliary[".toList
+  if !isPrefixOf p line then none else
+  let r := line.drop p.length
+  let ds := r.takeWhile isDigit
+  let r2 := r.dropWhile isDigit
+  if ds.isEmpty || !isPrefixOf "] =".toList r2 then none else some (numOf ds, r2.drop 3)
+
+def digit1 (c : Char) : Option Nat := if isDigit c then some (digitVal c) else none
+
+def xcfgHeader : List Str → XHdr → PRes (XHdr × List Str)
+  | [], h => .ok (h, [])
+  | line :: rest, h =>
+    if (strip line).isEmpty || line.head? == some '#' then xcfgHeader rest h
+    else if h.n.isNone then
+      if !isPrefixOf "Number of particles =".toList line then .error .sfe else
+      match (firstTok (line.drop 21)).bind parseInt with
+      | some n => xcfgHeader rest { h with n := some n }
+      | none => .error .sfe
+    else if isPrefixOf "A =".toList line then
+      match (firstTok (line.drop 3)).bind parseDec with
+      | some a => xcfgHeader rest { h with a := some a }
+      | none => .error .sfe
+    else if isPrefixOf "H0(".toList line then
+      match (line.drop 3).head?.bind digit1, (line.drop 5).head?.bind digit1, (firstTok (line.drop 10)).bind parseDec with
+      | some i, some j, some v =>
+        if 1 ≤ i ∧ i ≤ 3 ∧ 1 ≤ j ∧ j ≤ 3 then xcfgHeader rest { h with h0 := h.h0.set ((i - 1) * 3 + (j - 1)) (some v) }
+        else .error .unmodelled
+      | _, _, _ => .error .sfe
+    else if isPrefixOf ".NO_VELOCITY.".toList line then xcfgHeader rest { h with noVel := true }
+    else if isPrefixOf "entry_count =".toList line then
+      match (firstTok (line.drop 13)).bind parseInt with
+      | some n => xcfgHeader rest { h with entryCount := some n }
+      | none => .error .sfe
+    else match auxMatch line with
+      | some (idx, r) =>
+        match firstTok r with
+        | some nm => xcfgHeader rest { h with aux := (h.aux.filter (fun p => p.1 != idx)) ++ [(idx, nm)] }
+        | none => .error .sfe
+      | none => .ok (h, rest)      -- `break`: this line is consumed
+
+def xcfgData (a : Rat) (noVel : Bool) (ec : Nat) (names : List Str) : Option Str → List Str → PRes (List XRead)
+  | _, [] => .ok []
+  | pel, line :: rest =>
+    let words := splitWs line
+    match words with
+    | [w] => if isFloatTok w then xcfgData a noVel ec names pel rest
+             else xcfgData a noVel ec names (some (capitalize (strip line))) rest
+    | [] => xcfgData a noVel ec names (some []) rest
+    | _ =>
+      match pel with
+      | none => .error .sfe
+      | some el =>
+        if words.length ≠ ec then .error .sfe else
+        match words.mapM parseDec with
+        | none => .error .sfe
+        | some fs =>
+          let xyz : V3 := ⟨a * fs.getD 0 0, a * fs.getD 1 0, a * fs.getD 2 0⟩
+          let v := if noVel then none else some (⟨fs.getD 3 0, fs.getD 4 0, fs.getD 5 0⟩ : V3)
+          let first := if noVel then 3 else 6
+          match xcfgData a noVel ec names pel rest with
+          | .ok as => .ok (⟨el, xyz, v, names.zip (fs.drop first)⟩ :: as)
+          | .error k => .error k
+
+def parseXcfg (lines : List Str) : PRes XcfgRead :=
+  match xcfgHeader (dropTrailingBlank lines) ⟨none, none, List.replicate 9 none, false, none, []⟩ with
+  | .error k => .error k
+  | .ok (h, rest) =>
+    match h.a, h.h0.mapM id, h.n with
+    | some a, some base, some n =>
+      let auxnum := if h.aux.isEmpty then 0 else (h.aux.map (·.1)).foldl max 0 + 1
+      let ecnt : Int := (auxnum : Int) + (if h.noVel then 3 else 6)
+      if some ecnt ≠ h.entryCount then .error .sfe else
+      let names := (List.range auxnum).map (fun i =>
+        match h.aux.find? (fun p => p.1 == i) with
+        | some p => p.2
+        | none => "aux".toList ++ natDigits i)
+      match xcfgData a h.noVel ecnt.toNat names none rest with
+      | .error k => .error k
+      | .ok atoms => if (atoms.length : Int) ≠ n then .error .sfe else .ok ⟨n, a, base, atoms⟩
+    | _, _, _ => .error .sfe
+
+/-- element symbols of XCFG: one token that is not itself a number (it would be taken for a mass) -/
+def rangeXcfg (d : XcfgS) : Bool :=
+  !d.atoms.isEmpty && d.base.length == 9 && d.atoms.all (fun a => elemOk a.el && !isFloatTok a.el && a.u.length == 9) &&
+  d.storedAux.all elemOk
+
+/-- what the reader makes of the written text, computed from the document -/
+def quantXcfg (d : XcfgS) : XcfgRead :=
+  let L := xcfgLayout d
+  let aq : Rat := roundSig 8 (L.a : Rat)
+  let names := L.aux
+  ⟨d.atoms.length, aq, d.base.map (roundSig 8),
+   d.atoms.map (fun a =>
+     let pos := [a.xyz.x / (L.a : Rat) + L.shift.x, a.xyz.y / (L.a : Rat) + L.shift.y, a.xyz.z / (L.a : Rat) + L.shift.z]
+     let vel := if L.noVel then none else a.v.map (fun v => v.map (roundSig 8))
+     let us : List Rat :=
+       if L.uMode = 0 then [] else if L.uMode = 1 then [a.u.getD 0 0]
+       else [a.u.getD 0 0, a.u.getD 4 0, a.u.getD 8 0] ++ (if L.u12 then [a.u.getD 1 0] else []) ++
+            (if L.u13 then [a.u.getD 2 0] else []) ++ (if L.u23 then [a.u.getD 5 0] else [])
+     ⟨capitalize a.el, ⟨aq * roundSig 8 (pos.getD 0 0), aq * roundSig 8 (pos.getD 1 0), aq * roundSig 8 (pos.getD 2 0)⟩, vel,
+      names.zip ((a.aux ++ (if L.occ then [a.occ] else []) ++ us).map (roundSig 8))⟩)⟩
+
+/-- the full-strength statement for XCFG (kept visible; the correspondence checks it on every case,
+the proof is not done) -/
+def roundtrip_xcfg_statement : Prop :=
+  ∀ d : XcfgS, rangeXcfg d = true → parseXcfg (ofText (toText (writeXcfg d))) = .ok (quantXcfg d)
 
 /-! ## wire format -/
 
